@@ -37,6 +37,7 @@ def wrap_objective(objective, data, pdf, stitch_pars, do_grad=False, jit_pieces=
             pars = tensorlib.astensor(pars)
             constrained_pars = stitch_pars(pars)
             constr_nll = objective(constrained_pars, data, pdf)
-            return constr_nll[0]
+            # hand a python-native scalar to the optimizer, as in the gradient case
+            return constr_nll.detach().numpy()[0]
 
     return func
